@@ -53,6 +53,25 @@ def replay_file(path, quiet=False):
     with open(path) as f:
         rep = json.load(f)
     m = engine.machine_by_name(rep["machine"])
+    if rep.get("kind") == "sequence":
+        engine.ensure_ctx(rep.get("opts", {}))
+        res = engine.in_pristine_child(engine.replay_run_sequence, rep["machine"], rep["base_seed"], rep["stratum"],
+                                       rep["indices"])
+        if isinstance(res, dict):
+            print("HARNESS-ERROR: " + res.get("fatal", "?")[-800:])
+            return 2
+        out = {"replayed": path, "violation": None if res is None else {"clause": res[0], "step": res[1], "detail": res[2]},
+               "expected_clause": rep["clause"], "digest": None if res is None else res[3]}
+        print("REPLAY " + json.dumps(out))
+        if res is None:
+            if not quiet:
+                print("replay: no violation (property held on this sequence of runs)")
+            return 0
+        if not quiet:
+            print("sequence of %d runs of stratum %s (seed %d); the last one violates" % (len(rep["indices"]), rep["stratum"], rep["base_seed"]))
+            print("clause %s at step %d: %s" % (res[0], res[1], res[2]))
+            print("VIOLATION property=%s replay=%s" % (rep["property"], path))
+        return 1
     opts = {"pristine": rep["clause"].startswith("hidden_state")}
     ctx = engine.ensure_ctx(opts)
     run = m.replay(rep["cfg"], rep["ops"], pristine=ctx.get("pristine"), pristine_final=opts["pristine"])
@@ -89,8 +108,19 @@ def confirm_in_fresh_process(path, clause):
     return True, digs[0]
 
 
-def handle_violations(mname, batch, max_buckets=8):
-    """Minimise, write replay files, confirm in a fresh process, match known findings."""
+def _replay_child(mname, cfg, ops, want_pristine):
+    """Executed in a pristine child: replay and report (clause, step, detail) or None."""
+    m = engine.machine_by_name(mname)
+    run = m.replay(cfg, ops, pristine=engine._CTX.get("pristine"), pristine_final=want_pristine)
+    v = run.violation
+    return None if v is None else (v.clause, v.step, v.detail)
+
+
+def handle_violations(mname, batch, max_buckets=8, tries_per_bucket=4):
+    """Minimise, write replay files, confirm in a fresh process, match known findings.  The driver
+    process itself never executes code under test: every replay of the minimisation runs in its own
+    child forked from the pristine driver, so replays cannot contaminate each other through
+    process-global state of the code under test."""
     m = batch.m
     known = load_known()
     buckets = {}
@@ -98,7 +128,8 @@ def handle_violations(mname, batch, max_buckets=8):
         key = (v["clause"], v["cfg"].get("cls", v["cfg"].get("kind")))
         buckets.setdefault(key, []).append(v)
     reports = []
-    engine.ensure_ctx({"pristine": any(k[0].startswith("hidden_state") for k in buckets)})
+    engine.ensure_ctx(dict(batch.opts, pristine=bool(batch.opts.get("pristine")) or
+                           any(k[0].startswith("hidden_state") for k in buckets)))
     os.makedirs(os.path.join(VERIF, "replays", mname), exist_ok=True)
     # one bucket per clause first, then a second per clause, ... up to max_buckets
     by_clause = {}
@@ -113,26 +144,71 @@ def handle_violations(mname, batch, max_buckets=8):
         depth += 1
     for key in order:
         vs = sorted(buckets[key], key=lambda v: (len(v["ops"]), v["seed"]))
-        v = vs[0]
-        cfg, ops, n = shrink.minimise(m, v["cfg"], v["ops"], v["clause"], v["step"])
-        run = m.replay(cfg, ops, pristine=engine._CTX.get("pristine"),
-                       pristine_final=v["clause"].startswith("hidden_state"))
-        viol = run.violation
-        rep = {"property": m.PROPERTY, "machine": mname, "clause": v["clause"],
-               "detail": viol.detail if viol else v["detail"], "seed": v["seed"], "stratum": v["stratum"],
-               "index": v["index"], "base_seed": batch.base_seed, "cfg": cfg, "ops": ops,
-               "history": m.describe(cfg, ops), "original_ops": len(v["ops"]), "minimised_ops": len(ops),
-               "shrink_replays": n, "same_bucket_runs": len(vs)}
-        path = os.path.join(VERIF, "replays", mname, "%s_%x.json" % (v["clause"].replace(":", "_"), v["seed"]))
-        with open(path, "w") as f:
-            json.dump(rep, f, indent=1)
-        ok, info = confirm_in_fresh_process(path, v["clause"])
-        cul = m.culprit(cfg, ops)
-        kf = match_known(m.PROPERTY, v["clause"], cul, known) if ok else None
-        reports.append({"bucket": list(key), "count": len(vs), "replay": path, "confirmed": ok, "info": info,
-                        "known": kf, "history": rep["history"], "detail": rep["detail"], "culprit": cul,
-                        "clause": v["clause"]})
+        report = None
+        for v in vs[:tries_per_bucket]:
+            hidden = v["clause"].startswith("hidden_state")
+
+            def replay_clause(cfg, ops, _h=hidden):
+                res = engine.in_pristine_child(_replay_child, mname, cfg, ops, _h)
+                if isinstance(res, dict) and "fatal" in res:
+                    return None
+                return None if res is None else res[0]
+
+            cfg, ops, n = shrink.minimise(m, v["cfg"], v["ops"], v["clause"], v["step"], replay_clause=replay_clause)
+            res = engine.in_pristine_child(_replay_child, mname, cfg, ops, hidden)
+            detail = res[2] if isinstance(res, tuple) else v["detail"]
+            rep = {"property": m.PROPERTY, "machine": mname, "clause": v["clause"], "detail": detail,
+                   "seed": v["seed"], "stratum": v["stratum"], "index": v["index"], "base_seed": batch.base_seed,
+                   "cfg": cfg, "ops": ops, "history": m.describe(cfg, ops), "original_ops": len(v["ops"]),
+                   "minimised_ops": len(ops), "shrink_replays": n, "same_bucket_runs": len(vs)}
+            path = os.path.join(VERIF, "replays", mname, "%s_%x.json" % (v["clause"].replace(":", "_"), v["seed"]))
+            with open(path, "w") as f:
+                json.dump(rep, f, indent=1)
+            ok, info = confirm_in_fresh_process(path, v["clause"])
+            cul = m.culprit(cfg, ops)
+            kf = match_known(m.PROPERTY, v["clause"], cul, known) if ok else None
+            report = {"bucket": list(key), "count": len(vs), "replay": path, "confirmed": ok, "info": info,
+                      "known": kf, "history": rep["history"], "detail": rep["detail"], "culprit": cul,
+                      "clause": v["clause"]}
+            if ok:
+                break
+        if report is not None and not report["confirmed"]:
+            # The failure does not reproduce from the run's own history: it may depend on process-global
+            # state left behind by earlier runs of the same chunk (the chunk started in a pristine child).
+            # Treat the chunk prefix as one long history: replay it, minimise the predecessors, confirm.
+            seq = _sequence_fallback(mname, m, batch, vs[0], known)
+            if seq is not None:
+                report = dict(seq, bucket=list(key), count=len(vs))
+        reports.append(report)
     return reports, len(buckets)
+
+
+def _sequence_fallback(mname, m, batch, v, known):
+    clause = v["clause"]
+    prefix = v.get("chunk_prefix") or [v["index"]]
+
+    def fails(indices):
+        res = engine.in_pristine_child(engine.replay_run_sequence, mname, batch.base_seed, v["stratum"], indices)
+        return isinstance(res, tuple) and res[0] == clause
+
+    if not fails(prefix):
+        return None
+    last = prefix[-1]
+    pred = shrink.ddmin(prefix[:-1], lambda p: fails(list(p) + [last]), max_tests=120) if len(prefix) > 2 else prefix[:-1]
+    if len(pred) == 1 and fails([last]):
+        pred = []
+    indices = list(pred) + [last]
+    rep = {"kind": "sequence", "property": m.PROPERTY, "machine": mname, "clause": clause, "detail": v["detail"],
+           "base_seed": batch.base_seed, "stratum": v["stratum"], "indices": indices, "opts": batch.opts,
+           "history": "runs %s of stratum %s in one process; last run: %s" % (indices, v["stratum"], m.describe(v["cfg"], v["ops"])),
+           "original_runs_in_chunk_prefix": len(prefix)}
+    path = os.path.join(VERIF, "replays", mname, "%s_seq_%x.json" % (clause.replace(":", "_"), v["seed"]))
+    with open(path, "w") as f:
+        json.dump(rep, f, indent=1)
+    ok, info = confirm_in_fresh_process(path, clause)
+    cul = m.culprit(v["cfg"], v["ops"])
+    return {"replay": path, "confirmed": ok, "info": info, "known": match_known(m.PROPERTY, clause, cul, known) if ok else None,
+            "history": rep["history"], "detail": v["detail"], "culprit": cul, "clause": clause}
 
 
 def cmd_check(mname, args):
